@@ -704,6 +704,7 @@ func (ev *Env) quant(e *Expr) Val {
 		ls := make([]Term, len(sorts))
 		for i, s := range sorts {
 			nm := ev.c.fresh("q_" + b.Name)
+			ev.c.bound[nm] = true
 			ls[i] = nm
 			binds = append(binds, fmt.Sprintf("(%s %s)", nm, s))
 		}
